@@ -25,14 +25,20 @@ class C02(DiffProperty):
     assumptions = ["the reader ring can grow (realloc succeeds)", "OS-level partial writes/timeouts of mptio are outside the model"]
     level_text = ("proof (partial): Coq theorems C02_wire_splits_into_frames and C02_stream_integrity_flat: for all message sequences, all splits into pushes and "
                   "all capacity schedules the wire splits at its delimiters into one frame per message in order, and the decoder loop delivers exactly message i "
-                  "from frame i given the scratch gap (with C03_segmentation_independent: for any cutting of the wire). The ring layer (queue_push windows, "
-                  "queue_recv recovery, queue_shift) is tied by differential execution of a ring-level mechanism model (state compared after every operation) and "
-                  "decided against the specification 'received = sent' on rings of many capacities/offsets with arbitrary wire cuts incl. single-byte delivery")
-    level_note = ("partial: the theorems are at the flat byte-stream level; the ring-window code (mpt_queue_push, mpt_queue_recv, mpt_queue_shift) has an executable "
-                  "mechanism model that is compared with the implementation after every operation (ring offsets/lengths, encoder and decoder state, contents), but its "
-                  "refinement to the flat level is not yet a theorem. mptio stream glue (sockets, poll) is not executed. Theorems closed under the global context.")
-    technique = "Coq composition theorem (encoder o wire o decoder, flat level) + specification-level differential check of the ring layer"
+                  "from frame i given the scratch gap (with C03_segmentation_independent: for any cutting of the wire). Ring level, writer: "
+                  "C02_queue_push_refines_partial (one mpt_queue_push on a wrapped ring in any state keeps the stream-level encoder invariant: windows, second push, "
+                  "align-and-retry), C02_ring_writer_invariant_partial and C02_ring_writer_stream_partial (every history of pushes, terminations and transport steps "
+                  "on a ring of any capacity/offset: transport bytes + ring contents = the frames of the completed messages, each delivered by the decoder loop). "
+                  "Ring level, reader (queue_recv recovery, queue_shift) and the out-of-band branch of queue_push: executable mechanism model compared with the "
+                  "implementation after every operation, decided against the specification 'received = sent' on rings of many capacities/offsets with arbitrary "
+                  "wire cuts incl. single-byte delivery")
+    level_note = ("partial: (1) the writer-side ring theorems exclude the out-of-band branch of mpt_queue_push (open block straddling the storage end, copied through "
+                  "a stack buffer) by the guard no_oob; (2) the reader-side ring code (mpt_queue_recv, mpt_queue_shift, mpt_message_get) has an executable mechanism "
+                  "model compared with the implementation after every operation (ring offsets/lengths, decoder state, contents) but its refinement to the flat "
+                  "decoder is not a theorem; (3) mptio stream glue (sockets, poll) is not executed. Theorems closed under the global context.")
+    technique = "Coq theorems: composition encoder o wire o decoder (flat level) and ring-level writer refinement (history invariant); specification-level differential check of the ring-level mechanism model"
     coq_dir = "Cobs"
+    coq_deps = ("C13",)
     propfile = "Properties_C02.v"
     extract_vo = "Cobs/ExtractStream.vo"
     mlname = "stream_model"
